@@ -20,6 +20,11 @@ rule("C10.a", "no public function writes call-dependent state (grid, prices, oth
               "received as an argument, into a constructor-kept parameter of the asset, or into another asset", floor=25)
 rule("C06.g", "CHP / plant set-up does not modify the asset's own ramp profiles, runtimes and limits (C10.a seen from C06: the second "
               "set-up of the same plant must impose the same start / shutdown profile as the first)", floor=0)
+rule("C10.h", "a set-up does not carry results from one call to the next on the object: it neither probes instance state that only a "
+              "previous set-up can have left (hasattr / getattr(self, ..) other than the documented timegrid) nor reads an attribute it "
+              "writes itself before having written it in this call", floor=10)
+rule("C01.k", "the nodal restrictions are rebuilt from the mapping of the problem at hand in every set-up of a portfolio (C10.h seen from "
+              "C01: a cached set of rows describes another problem's structure)", floor=1)
 rule("C10.e", "price data received by a set-up is never modified in place (directly or through an alias / element)", floor=6)
 rule("C10.f", "a mutable default argument (list / dict / object created in the signature) is never mutated", floor=10)
 rule("C03.f", "optimize() does not modify the problem it is called on (mapping, c, l, u, b are only read or copied): a relaxed "
@@ -399,7 +404,7 @@ def _mutable_default(d) -> bool:
     return False
 
 
-@analysis("effects", ["C10.a", "C10.e", "C10.f", "C15.c", "C03.f", "C06.g"])
+@analysis("effects", ["C10.a", "C10.e", "C10.f", "C15.c", "C03.f", "C06.g", "C10.h", "C01.k"])
 def run(ctx):
     p = ctx.p
     an = ctx.memo("effects", lambda: EffectAnalysis(ctx))
@@ -518,6 +523,55 @@ def run(ctx):
                        "set-up of the same object - with another grid, unit or prices - starts from the value frozen by this one, and "
                        "to_json no longer shows what the user passed" % (a, m.qualname), node=st)
     ctx.require(n_m >= 30, "fewer than 30 asset / portfolio methods scanned")
+
+    # ------------------------------------------------------------ C10.h: no results carried from call to call
+    from .gridcache import _MustAssign
+    from ..flow import Walker as _W
+    SETUPS = ("setup_optim_problem", "setup_split_optim_problem", "create_cost_samples")
+    for ci in sorted(p.classes.values(), key=lambda c: c.name):
+        if not (p.is_subclass(ci, "Asset") or ci.name == "Portfolio"):
+            continue
+        for mname in SETUPS:
+            m = ci.methods.get(mname)
+            if m is None or all(isinstance(s0, (ast.Pass, ast.Expr)) for s0 in m.body):
+                continue
+            written = {a for a, _, _ in self_attr_writes(m)} - ctor_attrs.get(ci.name, set()) - {"timegrid"}
+            bad = []
+            # (1) probes of instance state
+            for n in au.walk_local(m.node, include_self=False):
+                if isinstance(n, ast.Call) and isinstance(n.func, ast.Name) and n.func.id in ("hasattr", "getattr") and len(n.args) >= 2 \
+                        and isinstance(n.args[0], ast.Name) and n.args[0].id == "self":
+                    nm = au.const_str(n.args[1])
+                    if nm != "timegrid":
+                        bad.append((n, "probes self.%s with %s()" % (nm, n.func.id)))
+            # (2) reads of an attribute this method writes, before it has written it in this call
+            if written:
+                dom = _MustAssign()
+                w = _W(dom)
+                loads = []
+
+                def on_stmt(node, state, loads=loads, written=written):
+                    hdr = node.test if isinstance(node, (ast.If, ast.While)) else (node.iter if isinstance(node, ast.For) else node)
+                    if isinstance(node, (ast.If, ast.While, ast.For)) or not isinstance(node, (ast.FunctionDef, ast.ClassDef)):
+                        for x in au.walk_local(hdr):
+                            if isinstance(x, ast.Attribute) and isinstance(x.ctx, ast.Load) and isinstance(x.value, ast.Name) and x.value.id == "self" \
+                                    and x.attr in written and x.attr not in state:
+                                loads.append(x)
+                w.on_stmt = on_stmt
+                w.run_function(m)
+                seen = set()
+                for x in loads:
+                    if id(x) not in seen:
+                        seen.add(id(x))
+                        bad.append((x, "reads self.%s before this call has written it" % x.attr))
+            rids = ["C10.h"] + (["C01.k"] if (ci.name == "Portfolio" and mname == "setup_optim_problem") else [])
+            for rid in rids:
+                ctx.ob(rid, m, "no state carried over from a previous set-up", not bad,
+                       "%s: what it finds there was left by an earlier set-up of the same object - possibly for another grid, other prices, "
+                       "another interval of a split optimisation. A cache keyed by counts (variables, rows, steps) is reused for a problem "
+                       "of equal size but different structure: the solver balances the old nodal rows while the report reads the new "
+                       "mapping (imbalance 3 at node N1 in the third interval)" % "; ".join("%s (%s)" % (why, p.where(n)) for n, why in bad[:3]),
+                       node=(bad[0][0] if bad else m.node))
 
     # ------------------------------------------------------------ C03.f: optimize works on copies
     opt = p.cls("OptimProblem").methods.get("optimize")
